@@ -239,7 +239,7 @@ let sx_of_obs (stk : req list) (w : world) : sx =
      L [A "out"; A outc];
      L (A "log" :: List.map (fun ((u, c), e) -> L [A (uid_str u); i c; sx_of_ev e]) w.log);
      L (A "tap" :: List.map (fun (t, e) -> L [i t; sx_of_ev e]) w.taplog);
-     L (A "probes" :: List.map (fun (((s, a), p), al) -> L [i s; i a; i p; b al]) w.probes);
+     L (A "probes" :: List.map (fun (((((s, a), p), al), ll), c) -> L [i s; i a; i p; b al; i ll; i c]) w.probes);
      L (A "snaps" :: List.map (fun ((c, bs), ns) -> L [i c; L (List.map b bs); L (List.map i ns)]) w.snaps)]
 
 let model_detail (stk : req list) (w : world) : string =
@@ -260,7 +260,7 @@ let observation_of_sx (x : sx) : observation =
       { ob_out = outc;
         ob_log = List.map (function L [A u; c; e] -> ((uid_of_str u, atom_nat c), ev_of_sx e) | y -> failwith ("bad log entry " ^ sx_to_string y)) (field "log" fs);
         ob_tap = List.map (function L [t; e] -> (atom_nat t, ev_of_sx e) | y -> failwith ("bad tap " ^ sx_to_string y)) (field "tap" fs);
-        ob_probes = List.map (function L [s; a; p; al] -> (((atom_nat s, atom_nat a), atom_nat p), bool_of al) | y -> failwith ("bad probe " ^ sx_to_string y)) (field "probes" fs);
+        ob_probes = List.map (function L [s; a; p; al; ll; c] -> (((((atom_nat s, atom_nat a), atom_nat p), bool_of al), atom_nat ll), atom_nat c) | y -> failwith ("bad probe " ^ sx_to_string y)) (field "probes" fs);
         ob_snaps = List.map (function L [c; L bs; L ns] -> ((atom_nat c, List.map bool_of bs), List.map atom_nat ns) | y -> failwith ("bad snap " ^ sx_to_string y)) (field "snaps" fs) }
   | _ -> failwith "bad observation"
 
@@ -276,6 +276,10 @@ let apply_oracle (name : string) (sc : scenario) (o : observation) : bool option
   | "c01" -> Some (c01_oracle o)
   | "c02" -> c02_oracle sc o
   | "c02loc" -> c02_loc_oracle sc o
+  | "c05" -> c05_oracle sc o
+  | "c06" -> c06_oracle sc o
+  | "c10" -> c10_oracle sc o
+  | "c13" -> c13_oracle sc o
   | _ -> failwith ("unknown oracle " ^ name)
 
 let oracle name scen_file obs_file =
